@@ -184,7 +184,7 @@ def gen_spec(rng, kinds=None, allow_mgr=True, max_period=25, inputs=None):
     if "input" in keys:
         spec["input"] = rng.choice(inputs or (PRICE_INPUTS if rng.random() < 0.4 else ["close"]))
     if "smoothing" in keys:
-        spec["smoothing"] = rng.choice([2.0, 2.0, 2.0, 1.0, 3.0, 1.5])
+        spec["smoothing"] = rng.choice([2.0, 2.0, 2.0, 1.0, 3.0, 1.5, 4.0, 5.0])   # (4, 5 with period 2, 3: a weight above 1 is still the documented recurrence)
     if "multiplier" in keys:
         spec["multiplier"] = rng.choice([2.0, 3.0, 1.5, 1.0, 2.5])
     if kind == "COUNTER":
